@@ -504,10 +504,31 @@ func genCopyPair(t *rapid.T, l Layout, now int64, rel string, allowCopyNaNVals b
 	return p
 }
 
-// subtleLayoutVariant: same archive count and steps, the last archive 7 points longer.
+// subtleLayoutVariant is a layout that differs from l in a way narrow windows / single-archive selections do
+// not show; which way is a pure function of l: the last archive 7 points longer (same count and steps), l
+// without its last archive (the variant is a strict prefix of l), or l plus one coarser archive (l is a
+// strict prefix of the variant).
 func subtleLayoutVariant(l Layout) Layout {
 	v := Layout{Method: l.Method, XFF: l.XFF, Archives: append([]Arch(nil), l.Archives...)}
-	v.Archives[len(v.Archives)-1].Points += 7
+	n := len(v.Archives)
+	last := v.Archives[n-1]
+	h := int64(n)
+	for _, a := range l.Archives {
+		h = h*31 + a.Step*7 + a.Points
+	}
+	switch emod(h, 3) {
+	case 1:
+		if n >= 2 {
+			v.Archives = v.Archives[:n-1]
+			return v
+		}
+	case 2:
+		if last.Points >= 2 && last.Step*2*last.Points < 1<<30 {
+			v.Archives = append(v.Archives, Arch{Step: last.Step * 2, Points: last.Points})
+			return v
+		}
+	}
+	v.Archives[n-1].Points += 7
 	return v
 }
 
